@@ -301,35 +301,44 @@ Proof.
   destruct (updatable f); [reflexivity|]. now contradiction H.
 Qed.
 
+Lemma map_keys_part_in selects omits p c k :
+  In (c, k) (map_keys_part s (select_and_omit s table selects omits false true) p) ->
+  k = KPay /\ ((exists f, In f s /\ has_col f = true /\ c = f_db f /\ updatable f = true)
+               \/ (lookup_field s c = None /\ map_has p c = true)).
+Proof.
+  unfold map_keys_part. intros H. apply in_flat_map in H. destruct H as (e & He & H).
+  destruct (lookup_field s (fst e)) as [f|] eqn:L.
+  - destruct (lookup_sound _ _ L) as [Hin _]. destruct (has_col f) eqn:Hc; [|contradiction].
+    destruct (allowed _ (f_db f)) eqn:A; [|contradiction]. destruct H as [H|[]]. inversion H; subst.
+    split; [reflexivity|]. left. exists f. split; [exact Hin|]. split; [exact Hc|]. split; [reflexivity|].
+    apply (allowed_updatable selects omits); auto. unfold allowed in A. intros X. rewrite X in A. discriminate.
+  - destruct (allowed _ (fst e)); [|contradiction]. destruct H as [H|[]]. inversion H; subst.
+    split; [reflexivity|]. right. split; [exact L|].
+    apply existsb_exists. exists e. split; [exact He|apply String.eqb_refl].
+Qed.
+
 Lemma assign_map_in selects omits skip p c k :
   In (c, k) (assign_map s (select_and_omit s table selects omits false true) skip p) ->
   (exists f, In f s /\ has_col f = true /\ c = f_db f /\ updatable f = true
              /\ (k = KNow -> skip = false /\ tracked_update f = true
-                             /\ map_has p (f_name f) = false /\ map_has p (f_db f) = false))
+                             /\ was_assigned (map_keys_part s (select_and_omit s table selects omits false true) p) (f_db f) = false))
   \/ (lookup_field s c = None /\ map_has p c = true /\ k = KPay).
 Proof.
-  unfold assign_map. intros H. apply in_app_or in H. destruct H as [H|H].
-  - apply in_flat_map in H. destruct H as (e & He & H).
-    destruct (lookup_field s (fst e)) as [f|] eqn:L.
-    + destruct (lookup_sound _ _ L) as [Hin _]. destruct (has_col f) eqn:Hc; [|contradiction].
-      destruct (allowed _ (f_db f)) eqn:A; [|contradiction]. destruct H as [H|[]]. inversion H; subst.
-      left. exists f. split; [exact Hin|]. split; [exact Hc|]. split; [reflexivity|].
-      split; [|intros X; discriminate X].
-      apply (allowed_updatable selects omits); auto. unfold allowed in A. intros X. rewrite X in A. discriminate.
-    + destruct (allowed _ (fst e)); [|contradiction]. destruct H as [H|[]]. inversion H; subst.
-      right. repeat split; auto. apply existsb_exists. exists e. split; [exact He|apply String.eqb_refl].
+  unfold assign_map. cbv zeta. intros H. apply in_app_or in H. destruct H as [H|H].
+  - destruct (map_keys_part_in _ _ _ _ _ H) as [-> [(f & A & B & C & D)|(A & B)]].
+    + left. exists f. repeat (split; [assumption|]). intros X; discriminate X.
+    + right. auto.
   - destruct skip; [contradiction|]. apply in_flat_map in H. destruct H as (f & Hf & H).
     apply in_col_fields in Hf. destruct Hf as [Hin Hc].
     destruct (f_auto f) eqn:Au; try contradiction.
-    destruct (negb (map_has p (f_name f)) && negb (map_has p (f_db f))) eqn:M; [|contradiction].
-    apply andb_prop in M. destruct M as [M1 M2]. apply negb_true_iff in M1, M2.
+    destruct (negb (was_assigned _ (f_db f))) eqn:M; [|contradiction]. apply negb_true_iff in M.
     assert (U : sel_get (fst (select_and_omit s table selects omits false true)) (f_db f) <> Some false
                 -> updatable f = true) by (apply allowed_updatable; auto).
     destruct (sel_get _ (f_db f)) as [[|]|] eqn:G; try contradiction;
       destruct H as [H|[]]; inversion H; subst; left; exists f;
       (split; [exact Hin|]; split; [exact Hc|]; split; [reflexivity|];
        split; [apply U; discriminate|]; intros _; split; [reflexivity|];
-       split; [unfold tracked_update; now rewrite Au|]; split; assumption).
+       split; [unfold tracked_update; now rewrite Au|exact M]).
 Qed.
 
 (* every given key that names an updatable column is written, zero value or not, when no
@@ -339,7 +348,7 @@ Lemma assign_map_all_keys skip p e f :
   In (f_db f, KPay) (assign_map s (select_and_omit s table [] [] false true) skip p).
 Proof.
   intros He L Hc U. destruct (lookup_sound _ _ L) as [Hin _].
-  unfold assign_map. apply in_or_app. left. apply in_flat_map. exists e. split; [exact He|].
+  unfold assign_map. cbv zeta. apply in_or_app. left. unfold map_keys_part. apply in_flat_map. exists e. split; [exact He|].
   rewrite L, Hc. unfold allowed.
   rewrite (sao_get_field [] [] false true f Hin Hc eq_refl eq_refl). unfold denied. cbn. rewrite U. cbn.
   now left.
